@@ -7,6 +7,7 @@ package c03
 import (
 	"fmt"
 	"strconv"
+	"strings"
 
 	"pgregory.net/rapid"
 
@@ -58,7 +59,25 @@ func leafKid(m string) []Node { return []Node{{Kind: "plain", M: m + "k"}} }
 
 // place wraps the sibling list body into the placement and attaches the data.
 func place(placement string, body []Node, vars map[string]vals.V, next map[string]vals.V) Case {
+	if strings.HasPrefix(placement, "top:") {
+		return Case{Nodes: body, Vars: vars, Form: placement[4:]}
+	}
+	if strings.HasPrefix(placement, "loop:") {
+		c := place("loop", body, vars, next)
+		c.Items = placement[5:]
+		return c
+	}
 	switch placement {
+	case "vloop":
+		// the loop variable is the first condition variable itself: it takes the assignment's value,
+		// nil and the opposite value, while the global of the same name stays true
+		first := vars["ca"]
+		v := merge(vars, map[string]vals.V{"ca": vals.Bool(true)})
+		return Case{
+			Nodes:  []Node{{Kind: "vloop", M: "V", Var: "ca", List: "vl", Kids: body}},
+			Vars:   v,
+			VLists: map[string][]vals.V{"vl": {first, vals.Nil(), vals.Bool(first.S != "true")}},
+		}
 	case "div":
 		return Case{Nodes: []Node{plain("D", "", body...)}, Vars: vars}
 	case "loop":
@@ -79,7 +98,7 @@ func place(placement string, body []Node, vars map[string]vals.V, next map[strin
 }
 
 func refFor(placement string) func(string) string {
-	if placement == "loop" {
+	if placement == "loop" || strings.HasPrefix(placement, "loop:") {
 		return func(v string) string { return "it1." + v }
 	}
 	return func(v string) string { return v }
@@ -115,7 +134,13 @@ func enumShapes(full bool, yield func(Case) bool) {
 		}
 		return yield(c)
 	}
-	placements := []string{"top", "div", "loop"}
+	// the last placements vary how the operands of the conditions are written and stored (path
+	// forms, struct items read by JSON tag) and let the loop variable itself be the condition
+	// variable, shadowing a global of that name; they run a reduced product (plain / negated
+	// members, siblings on both sides)
+	placements := []string{"top", "div", "loop",
+		"top:hyphen", "top:dotidx", "top:bracket", "top:nested", "top:tag", "top:goname",
+		"loop:struct", "loop:ptr", "vloop"}
 	for nElif := 0; nElif <= 3; nElif++ {
 		for _, hasElse := range []bool{false, true} {
 			spec := chainSpec{nElif: nElif, hasElse: hasElse, prefix: "m", vars: condNames[:4]}
@@ -127,7 +152,11 @@ func enumShapes(full bool, yield func(Case) bool) {
 				next := spec.values((assign + 1) % total)
 				for _, pl := range placements {
 					ref := refFor(pl)
+					extra := pl == "vloop" || strings.Contains(pl, ":")
 					for _, sep := range sepKinds {
+						if extra && !full && (sep == "w" || sep == "c") {
+							continue // quick tier: two separators for the operand-form placements
+						}
 						base := spec.members(sep, ref)
 						nm := len(base)
 						// decorations of the members
@@ -170,8 +199,11 @@ func enumShapes(full bool, yield func(Case) bool) {
 							}
 						}
 						for _, d := range decos {
+							if extra && d.name != "plain" && !strings.HasPrefix(d.name, "neg-") {
+								continue
+							}
 							for sib := 0; sib < 4; sib++ {
-								if reduced && sib != 3 {
+								if (reduced || extra) && sib != 3 {
 									continue
 								}
 								ms := spec.members(sep, ref)
@@ -193,7 +225,7 @@ func enumShapes(full bool, yield func(Case) bool) {
 								}
 							}
 						}
-						if reduced {
+						if reduced || extra {
 							continue
 						}
 						// two adjacent chains: the second one follows with the same separator
@@ -446,6 +478,8 @@ type nestGen struct {
 	next     int
 	maxDepth int
 	inSlot   bool
+	plain    bool     // globals are written as plain names: vloops may shadow them
+	vlists   []string // vloop lists used
 }
 
 func (g *nestGen) marker() string {
@@ -540,7 +574,14 @@ func (g *nestGen) siblings(depth int, loopVars []string, lo, hi int) []Node {
 		if len(out) == 0 && depth == 0 {
 			sep = ""
 		}
-		switch k := rapid.IntRange(0, 23).Draw(g.t, "kind"); {
+		switch k := rapid.IntRange(0, 25).Draw(g.t, "kind"); {
+		case k >= 24 && g.plain && depth < g.maxDepth:
+			// a loop over plain values whose loop variable is named like a global condition variable
+			list := fmt.Sprintf("vl%d", len(g.vlists))
+			g.vlists = append(g.vlists, list)
+			out = append(out, Node{Kind: "vloop", M: g.marker(), Sep: sep, List: list,
+				Var:  rapid.SampledFrom(condNames[:6]).Draw(g.t, "vvar"),
+				Kids: g.kids(depth+1, loopVars, true)})
 		case k >= 22 && !g.inSlot && depth < g.maxDepth:
 			// slot content (re-)used once or twice per item of a list
 			g.inSlot = true
@@ -608,7 +649,26 @@ func genNest(rec *ev.Rec, open map[string]bool) func(*rapid.T) Case {
 	return func(t *rapid.T) Case {
 		g := &nestGen{t: t, maxDepth: rapid.IntRange(2, 4).Draw(t, "maxdepth")}
 		c := Case{Vars: map[string]vals.V{}, Lists: map[string][]map[string]vals.V{}}
+		c.Form = rapid.SampledFrom([]string{"", "", "", "", "hyphen", "dotidx", "bracket", "nested", "tag", "goname"}).Draw(t, "form")
+		c.Items = rapid.SampledFrom([]string{"", "", "struct", "ptr"}).Draw(t, "items")
+		g.plain = c.Form == ""
 		c.Nodes = g.siblings(0, nil, 1, 4)
+		if len(g.vlists) > 0 {
+			c.VLists = map[string][]vals.V{}
+			for _, list := range g.vlists {
+				n := []int{2, 3, 1, 2, 3, 0}[rapid.IntRange(0, 5).Draw(t, list)]
+				items := make([]vals.V, n)
+				for i := range items {
+					// nil items are common: they must shadow, not fall through to the global
+					if rapid.IntRange(0, 2).Draw(t, "vnil") == 0 {
+						items[i] = vals.Nil()
+					} else if items[i] = genCondValue(t, fmt.Sprintf("%s_%d", list, i)); items[i].K == "missing" {
+						items[i] = vals.Nil()
+					}
+				}
+				c.VLists[list] = items
+			}
+		}
 		for _, name := range condNames[:6] {
 			if v := genCondValue(t, name); v.K != "missing" {
 				c.Vars[name] = v
@@ -726,14 +786,20 @@ func genAnyValue(t *rapid.T, depth int) vals.V {
 func genValue(rec *ev.Rec, open map[string]bool) func(*rapid.T) TruthCase {
 	return func(t *rapid.T) TruthCase {
 		c := TruthCase{Val: genAnyValue(t, 0)}
-		if ex := excludedPositions(c.Val, open); len(ex) > 0 {
-			for _, p := range positionNames() {
-				if id, out := ex[p]; out {
-					rec.Excluded(id)
-				} else {
-					c.Pos = append(c.Pos, p)
-				}
+		// the positions on the plain name plus all positions of one operand form (the table runs
+		// every form for its fixed values)
+		f1 := forms[rapid.IntRange(0, len(forms)-1).Draw(t, "form1")].name + " / "
+		f2 := f1
+		ex := excludedPositions(c.Val, open)
+		for i, p := range positionNames() {
+			if i >= basePositionCount && !strings.HasPrefix(p, f1) && !strings.HasPrefix(p, f2) {
+				continue
 			}
+			if id, out := ex[p]; out {
+				rec.Excluded(id)
+				continue
+			}
+			c.Pos = append(c.Pos, p)
 		}
 		return c
 	}
